@@ -139,7 +139,10 @@ def check_case(out: Outcome, case, tag):
     L = Lattice(lat)
     d = np.concatenate([L.get_all_distances(pos[t][:nLi], pos[t]).reshape(-1) for t in range(T)])
     near = np.abs(d[:, None] - bins[None, :])
-    if np.any((near < 1e-9) & (near > 0)):
+    # (for a bin width that is not a dyadic number the float edges k*res are not the exact multiples: a distance ON such an edge is
+    #  not decided either)
+    dyadic_res = float(res * 1024).is_integer()
+    if np.any((near < 1e-9) & ((near > 0) | (not dyadic_res))):
         out.count('skipped-margin')
         return
     keys = set(got) | {k for k, v in want.items() if v[:nb].sum() > 0}
